@@ -495,6 +495,7 @@ type session struct {
 	drvFaults []string
 	signFail  *bool
 	dead      bool // a storage operation hung: nothing more can be done with this witness
+	prerecord bool // the witness uses verifiers the harness cannot wrap: record the oracle with the harness's own
 }
 
 var sessCounter int
@@ -646,6 +647,13 @@ func (s *session) update(logID string, old uint64, cp []byte, proof [][]byte, ex
 		drvCtl.setFaults(s.drvFaults)
 		for _, d := range s.drvFaults {
 			faultLetters += map[string]string{"begin": "W", "query": "R", "next": "R", "exec": "S", "commit": "S", "rollback": "C"}[d]
+		}
+	}
+	if s.prerecord {
+		for _, l := range s.logs {
+			if l.id == logID {
+				_, _ = note.Open(cp, note.VerifierList(l.rv))
+			}
 		}
 	}
 	t0 := time.Now().Unix()
